@@ -15,8 +15,8 @@ M = [
   "            work_item = self.pending_work_items.pop(result_item.work_id, None)\n            # work_item can be None if another process terminated (see above)",
   "            work_item = self.pending_work_items.pop(\n                min(self.running_work_items, default=result_item.work_id), None\n            )\n            # work_item can be None if another process terminated (see above)"),
  ("M05_one_sentinel_too_few", "C05", "loky/process_executor.py",
-  "            n_sentinels_sent < n_children_to_stop\n            and self.get_n_children_alive() > 0",
-  "            n_sentinels_sent < n_children_to_stop - (n_children_to_stop > 2)\n            and self.get_n_children_alive() > 0"),
+  "            for _ in range(n_children_to_stop - n_sentinels_sent):\n                try:\n                    self.call_queue.put_nowait(None)",
+  "            for _ in range(n_children_to_stop - n_sentinels_sent - (n_children_to_stop > 2)):\n                try:\n                    self.call_queue.put_nowait(None)"),
  ("M06_dispatch_ignores_cancel", "C03", "loky/process_executor.py",
   "                if work_item.future.set_running_or_notify_cancel():", "                if work_item.future.set_running_or_notify_cancel() or True:"),
  ("M07_spawn_one_too_many", "C08", "loky/process_executor.py",
@@ -44,7 +44,7 @@ M = [
   "    for descendant in descendants[::-1]:", "    for descendant in descendants[:0]:"),
  ("M18_resize_posts_one_sentinel_less", "C10", "loky/reusable_executor.py",
   "                for _ in range(max_workers, nb_children_alive):", "                for _ in range(max_workers + (max_workers > 1), nb_children_alive):"),
- ("M19_timeout_ignores_management_lock", "C07", "loky/process_executor.py",
+ ("M19_timeout_ignores_management_lock", "C10", "loky/process_executor.py",
   "            if processes_management_lock.acquire(block=False):\n                processes_management_lock.release()\n                call_item = None\n            else:\n                mp.util.info(\"Could not acquire processes_management_lock\")\n                continue",
   "            call_item = None"),
  ("M20_result_reducers_not_defaulted", "C15", "loky/process_executor.py",
